@@ -5,10 +5,36 @@ package main
 // index terms occurring in the VC. Sound in both directions of use (goal made no weaker,
 // hypotheses made no stronger). Quantifiers in positions of mixed polarity are left to the solver.
 
-import "sort"
+import (
+	"fmt"
+	"sort"
+)
 
 type qctx struct {
-	memo map[[2]interface{}]*Term
+	memo     map[[2]interface{}]*Term
+	goalIdx  map[*Term]bool // index terms occurring in the goal (preferred instantiation candidates)
+}
+
+// goalRank: 0 for candidates that occur as index terms of the goal, 1 otherwise.
+func (q *qctx) goalRank(t *Term) int {
+	if q.goalIdx[t] {
+		return 0
+	}
+	return 1
+}
+
+func intRoot(n, k int) int {
+	r := 1
+	for {
+		p := 1
+		for i := 0; i < k; i++ {
+			p *= (r + 1)
+		}
+		if p > n {
+			return r
+		}
+		r++
+	}
 }
 
 // elimQuant rewrites t. goalCtx=true: result must imply t (stronger or equal).
@@ -31,8 +57,8 @@ func (q *qctx) skolem(t *Term, goalCtx bool) *Term {
 			}
 			return q.skolem(substitute(body, sub), goalCtx)
 		}
-		// keep, but process the body (nested quantifiers of the other kind)
-		nb := q.skolemUnder(body, goalCtx)
+		// keep, but process the body (nested quantifiers of the other kind become Skolem functions of the kept variables)
+		nb := q.skolemUnder(body, goalCtx, vars)
 		if nb == body {
 			return t
 		}
@@ -61,8 +87,56 @@ func (q *qctx) skolem(t *Term, goalCtx bool) *Term {
 	return t
 }
 
-// skolemUnder: inside a kept quantifier nothing can be skolemised with constants (would need functions).
-func (q *qctx) skolemUnder(t *Term, goalCtx bool) *Term { return t }
+// skolemUnder: inside a kept quantifier over outer, a quantifier of the skolemisable kind is replaced by
+// Skolem functions of the outer variables (only through and/or/not/=>/ite structure).
+func (q *qctx) skolemUnder(t *Term, goalCtx bool, outer []*Term) *Term {
+	if t.S.K != KBool || t.Lit || t.Var || t.Bound || !containsQuant(t) {
+		return t
+	}
+	if t.Quant != "" {
+		n := len(t.Args)
+		vars := t.Args[:n-1]
+		body := t.Args[n-1]
+		if (t.Quant == "forall" && goalCtx) || (t.Quant == "exists" && !goalCtx) {
+			sub := map[*Term]*Term{}
+			for _, v := range vars {
+				skolemCounter++
+				sub[v] = UFApp(fmt.Sprintf("skf%d_%s", skolemCounter, v.Op), v.S, outer...)
+			}
+			return q.skolemUnder(substitute(body, sub), goalCtx, outer)
+		}
+		nb := q.skolemUnder(body, goalCtx, append(append([]*Term{}, outer...), vars...))
+		if nb == body {
+			return t
+		}
+		if t.Quant == "forall" {
+			return Forall(vars, nb)
+		}
+		return Exists(vars, nb)
+	}
+	switch t.Op {
+	case "and", "or":
+		out := make([]*Term, len(t.Args))
+		for i, a := range t.Args {
+			out[i] = q.skolemUnder(a, goalCtx, outer)
+		}
+		if t.Op == "and" {
+			return And(out...)
+		}
+		return Or(out...)
+	case "not":
+		return Not(q.skolemUnder(t.Args[0], !goalCtx, outer))
+	case "=>":
+		return Implies(q.skolemUnder(t.Args[0], !goalCtx, outer), q.skolemUnder(t.Args[1], goalCtx, outer))
+	case "ite":
+		if !containsQuant(t.Args[0]) {
+			return Ite(t.Args[0], q.skolemUnder(t.Args[1], goalCtx, outer), q.skolemUnder(t.Args[2], goalCtx, outer))
+		}
+	}
+	return t
+}
+
+var skolemCounter int
 
 func (q *qctx) mapArgs(as []*Term, goalCtx bool) []*Term {
 	out := make([]*Term, len(as))
@@ -273,6 +347,74 @@ func patternsOf(body *Term, vars []*Term) []qpattern {
 	return out
 }
 
+// relatedArrays: one array term is derived from the other by stores / ite (e.g. a slice before and after append).
+func relatedArrays(a, b *Term) bool {
+	return derivedFrom(a, b, 0) || derivedFrom(b, a, 0)
+}
+
+func derivedFrom(a, base *Term, depth int) bool {
+	if a == base {
+		return true
+	}
+	if depth > 6 {
+		return false
+	}
+	switch a.Op {
+	case "store":
+		if len(a.Args) == 3 {
+			return derivedFrom(a.Args[0], base, depth+1)
+		}
+	case "ite":
+		if len(a.Args) == 3 {
+			return derivedFrom(a.Args[1], base, depth+1) || derivedFrom(a.Args[2], base, depth+1)
+		}
+	case "select":
+		// select(H', r) vs select(H, r): inner arrays of a heap before/after an update
+		if len(a.Args) == 2 && base.Op == "select" && len(base.Args) == 2 {
+			return derivedFrom(a.Args[0], base.Args[0], depth+1)
+		}
+	}
+	if a.Def != nil {
+		return derivedFrom(a.Def, base, depth+1)
+	}
+	return false
+}
+
+// replaceTerms substitutes arbitrary subterms (used for case splits).
+func replaceTerms(t *Term, sub map[*Term]*Term) *Term {
+	memo := map[*Term]*Term{}
+	var rec func(t *Term) *Term
+	rec = func(t *Term) *Term {
+		if r, ok := sub[t]; ok {
+			return r
+		}
+		if t.Lit || len(t.Args) == 0 {
+			if t.Def != nil {
+				return rec(t.Def)
+			}
+			return t
+		}
+		if r, ok := memo[t]; ok {
+			return r
+		}
+		args := make([]*Term, len(t.Args))
+		changed := false
+		for i, a := range t.Args {
+			args[i] = rec(a)
+			if args[i] != a {
+				changed = true
+			}
+		}
+		r := t
+		if changed {
+			r = rebuild(t, args)
+		}
+		memo[t] = r
+		return r
+	}
+	return rec(t)
+}
+
 func minusOff(idx, off *Term) *Term {
 	if off == nil {
 		return idx
@@ -291,7 +433,7 @@ func minusOff(idx, off *Term) *Term {
 	return BV("bvsub", idx, off)
 }
 
-const maxInstances = 400
+const maxInstances = 100
 
 // instantiate replaces hypothesis-context foralls in t by instances. Returns ok=false if some
 // quantifier had no usable pattern (then it is left in place).
@@ -306,26 +448,45 @@ func (q *qctx) instantiate(t *Term, goalCtx bool, uses []indexUse, extra map[*So
 		if (t.Quant == "forall" && !goalCtx) || (t.Quant == "exists" && goalCtx) {
 			pats := patternsOf(body, vars)
 			cands := map[*Term][]*Term{}
+			// per-variable cap so that the product stays within maxInstances
+			capPer := maxInstances
+			for n := 1; n < len(vars); n++ {
+				capPer = intRoot(maxInstances, len(vars))
+			}
 			for _, v := range vars {
-				set := map[*Term]bool{}
+				exact := map[*Term]bool{}
+				related := map[*Term]bool{}
 				for _, p := range pats {
 					if p.v != v {
 						continue
 					}
 					for _, u := range uses {
 						if u.arr == p.arr {
-							set[minusOff(u.idx, p.off)] = true
+							exact[minusOff(u.idx, p.off)] = true
+						} else if u.arr.S == p.arr.S && relatedArrays(u.arr, p.arr) {
+							related[minusOff(u.idx, p.off)] = true
 						}
 					}
 				}
 				for _, e := range extra[v.S] {
-					set[e] = true
+					exact[e] = true
 				}
 				var l []*Term
-				for c := range set {
+				for c := range exact {
 					l = append(l, c)
 				}
-				sort.Slice(l, func(i, j int) bool { return l[i].ID < l[j].ID })
+				sort.Slice(l, func(i, j int) bool { return q.goalRank(l[i]) < q.goalRank(l[j]) || (q.goalRank(l[i]) == q.goalRank(l[j]) && l[i].ID < l[j].ID) })
+				var r []*Term
+				for c := range related {
+					if !exact[c] {
+						r = append(r, c)
+					}
+				}
+				sort.Slice(r, func(i, j int) bool { return q.goalRank(r[i]) < q.goalRank(r[j]) || (q.goalRank(r[i]) == q.goalRank(r[j]) && r[i].ID < r[j].ID) })
+				l = append(l, r...)
+				if len(l) > capPer {
+					l = l[:capPer]
+				}
 				cands[v] = l
 			}
 			total := 1
@@ -436,6 +597,7 @@ func prepareVC(assumes0 []*Term, goal0 *Term) ([]*Term, *Term, []*Term, *Term) {
 		assumes[i] = resolveDefs(a)
 	}
 	goal := resolveDefs(goal0)
+	assumes = relevantAssumptions(assumes, goal)
 	ia, ig := prepareVCq(assumes, goal)
 	return assumes, goal, ia, ig
 }
@@ -457,25 +619,149 @@ func prepareVCq(assumes []*Term, goal *Term) ([]*Term, *Term) {
 	for i, a := range assumes {
 		as[i] = q.skolem(a, false)
 	}
-	for round := 0; round < 2; round++ {
-		roots := append(append([]*Term{}, as...), g)
-		uses := collectGroundSelects(roots)
-		changed := false
-		ng := q.instantiate(g, true, uses, nil)
-		if ng != g {
-			changed = true
-			g = ng
-		}
-		for i, a := range as {
-			na := q.instantiate(a, false, uses, nil)
-			if na != a {
-				changed = true
-				as[i] = na
-			}
-		}
-		if !changed {
-			break
+	// instantiate the original (skolemised) formulas against the index terms of the previous round's result,
+	// so that terms introduced by instances (e.g. through a copy axiom) trigger further instances
+	orig := append([]*Term{}, as...)
+	og := g
+	q.goalIdx = map[*Term]bool{}
+	for _, u := range collectGroundSelects([]*Term{g}) {
+		q.goalIdx[u.idx] = true
+		if u.idx.Op == "bvadd" && len(u.idx.Args) == 2 {
+			q.goalIdx[u.idx.Args[0]] = true
+			q.goalIdx[u.idx.Args[1]] = true
 		}
 	}
+	nuses := -1
+	for round := 0; round < 3; round++ {
+		roots := append(append([]*Term{}, as...), g)
+		uses := collectGroundSelects(roots)
+		if len(uses) == nuses {
+			break
+		}
+		nuses = len(uses)
+		g = q.instantiate(og, true, uses, nil)
+		for i, a := range orig {
+			as[i] = q.instantiate(a, false, uses, nil)
+		}
+	}
+	// quantifiers that could not be eliminated are dropped from the quantifier-free attempt
+	// (hypotheses weakened to true, goal parts strengthened to false): sound, possibly incomplete
+	g = dropQuant(g, true)
+	for i, a := range as {
+		as[i] = dropQuant(a, false)
+	}
 	return as, g
+}
+
+func dropQuant(t *Term, goalCtx bool) *Term {
+	if t.S.K != KBool || t.Lit || t.Var || t.Bound || !containsQuant(t) {
+		return t
+	}
+	if t.Quant != "" {
+		if goalCtx {
+			return TFalse
+		}
+		return TTrue
+	}
+	switch t.Op {
+	case "and", "or":
+		out := make([]*Term, len(t.Args))
+		for i, a := range t.Args {
+			out[i] = dropQuant(a, goalCtx)
+		}
+		if t.Op == "and" {
+			return And(out...)
+		}
+		return Or(out...)
+	case "not":
+		return Not(dropQuant(t.Args[0], !goalCtx))
+	case "=>":
+		return Implies(dropQuant(t.Args[0], !goalCtx), dropQuant(t.Args[1], goalCtx))
+	case "ite":
+		if !containsQuant(t.Args[0]) {
+			return Ite(t.Args[0], dropQuant(t.Args[1], goalCtx), dropQuant(t.Args[2], goalCtx))
+		}
+	}
+	if t.Def != nil {
+		return dropQuant(t.Def, goalCtx)
+	}
+	if goalCtx {
+		return TFalse
+	}
+	return TTrue
+}
+
+
+// relevantAssumptions keeps the hypotheses connected to the goal through shared free symbols (cone of
+// influence). Dropping hypotheses is sound; it only shrinks the solver's work.
+func relevantAssumptions(as []*Term, goal *Term) []*Term {
+	symMemo := map[*Term]map[*Term]bool{}
+	var syms func(t *Term) map[*Term]bool
+	collect := func(t *Term) map[*Term]bool {
+		out := map[*Term]bool{}
+		seen := map[*Term]bool{}
+		var rec func(t *Term)
+		rec = func(t *Term) {
+			if seen[t] || t.Lit || t.Bound {
+				return
+			}
+			seen[t] = true
+			if t.Var {
+				out[t] = true
+				return
+			}
+			if t.UF != nil && len(t.Args) == 0 {
+				out[t] = true
+			}
+			for _, a := range t.Args {
+				rec(a)
+			}
+		}
+		rec(t)
+		return out
+	}
+	syms = func(t *Term) map[*Term]bool {
+		if m, ok := symMemo[t]; ok {
+			return m
+		}
+		m := collect(t)
+		symMemo[t] = m
+		return m
+	}
+	rel := map[*Term]bool{}
+	for s := range syms(goal) {
+		rel[s] = true
+	}
+	keep := make([]bool, len(as))
+	changed := true
+	for changed {
+		changed = false
+		for i, a := range as {
+			if keep[i] {
+				continue
+			}
+			sm := syms(a)
+			hit := len(sm) == 0
+			for s := range sm {
+				if rel[s] {
+					hit = true
+					break
+				}
+			}
+			if hit {
+				keep[i] = true
+				changed = true
+				for s := range sm {
+					rel[s] = true
+				}
+			}
+		}
+	}
+	var out []*Term
+	for i, a := range as {
+		if keep[i] {
+			out = append(out, a)
+		}
+	}
+	return out
 }
